@@ -37,7 +37,8 @@ func vxBuildStream(nreq int, paymax int) ([]byte, []int) {
 }
 
 func vxRunStream(msize int, stream []byte, cuts []int) ([]vxSeenReq, []byte, bool) {
-	kit := vxNewKit(false, false, 8192, true)
+	// the server's own msize is the small one: the receive buffer (8*msize) is allocated when the connection starts
+	kit := vxNewKit(false, false, uint32(msize), true)
 	kit.ops.echo = true
 	var seen []vxSeenReq
 	kit.ops.hook = func(op string, req *SrvReq) {
